@@ -5,6 +5,7 @@ package main
 
 import (
 	"fmt"
+	"go/ast"
 	"go/token"
 	"go/types"
 	"sort"
@@ -773,4 +774,198 @@ func ruleGlobalEscape(c *Ctx) []Obligation {
 	o := ok(R, "escapes of package-level references into instance state enumerated", "-", fmt.Sprintf("%d escape(s), %d field(s) written through", len(escs), len(writtenThrough)))
 	obs = append(obs, o)
 	return obs
+}
+
+// ---------------------------------------------------------------- REV.BAREKEY
+
+func init() {
+	register(&Rule{Name: "REV.BAREKEY", Props: []string{"C13", "C05"}, Floor: 4,
+		Doc: "every string-keyed table whose keys are built from bare module names (which several loaded revisions share) is either keyed with the revision as well or has a recorded reason why name granularity is right",
+		Run: ruleRevBareKey})
+}
+
+// bareKeyJustified: table → why a key without the revision is right there.
+var bareKeyJustified = map[string]string{
+	"yang.(*Modules).add: m":       "the module table itself (ms.Modules or ms.SubModules): every module is filed under name@revision and the bare name is an alias for the newest revision (REV.ORDER decides the re-pointing)",
+	"yang.FindGrouping: seen":      "visited set of a search over the include graph: a second visit of a same-named submodule would search the same groupings again; skipping it loses nothing",
+	"yang.(*Modules).Process: dvP": "the module table holds every module under two keys (name and name@revision); the set makes each module's deviations apply once, and the sorted visit makes the bare-name alias — the newest revision — the one that is applied",
+}
+
+func ruleRevBareKey(c *Ctx) []Obligation {
+	const R = "REV.BAREKEY"
+	mod := c.MustNamed("yang", "Module")
+	isBare := func(x ssa.Value) bool {
+		switch y := x.(type) {
+		case *ssa.Call:
+			n := calleeName(y)
+			if n == "NName" {
+				return true
+			}
+		case *ssa.FieldAddr, *ssa.Field:
+			owner, f, _ := fieldOf(y)
+			if f != nil && f.Name() == "Name" && owner != nil {
+				switch owner.Obj().Name() {
+				case "Module", "BelongsTo", "Include", "Import":
+					return true
+				}
+			}
+		}
+		return false
+	}
+	isModEntryName := func(x ssa.Value) bool {
+		// ToEntry(<module>).Name
+		owner, f, base := fieldOf(x)
+		if f == nil || owner == nil || owner.Obj().Name() != "Entry" || f.Name() != "Name" {
+			return false
+		}
+		return derivesFrom(base, func(y ssa.Value) bool {
+			call, isC := y.(*ssa.Call)
+			if !isC || calleeName(call) != "ToEntry" || len(call.Call.Args) == 0 {
+				return false
+			}
+			a := call.Call.Args[0]
+			if mi, isMI := a.(*ssa.MakeInterface); isMI {
+				a = mi.X
+			}
+			pt, isP := a.Type().(*types.Pointer)
+			return isP && namedOf(pt.Elem()) == mod
+		})
+	}
+	hasRev := func(x ssa.Value) bool {
+		switch y := x.(type) {
+		case *ssa.Call:
+			switch calleeName(y) {
+			case "FullName", "Current":
+				return true
+			}
+		case *ssa.FieldAddr, *ssa.Field:
+			_, f, _ := fieldOf(y)
+			if f != nil && (f.Name() == "RevisionDate" || f.Name() == "Revision") {
+				return true
+			}
+		}
+		return false
+	}
+	type tab struct {
+		name         string
+		pos          string
+		bare, rev    bool
+		bareAt       string
+		onlyBareKeys bool
+	}
+	tabs := map[string]*tab{}
+	var order []string
+	for _, fn := range c.Funcs {
+		if fn.Pkg == nil || shortPkg(fn.Pkg.Pkg.Path()) != "yang" {
+			continue
+		}
+		eachInstr(fn, func(in ssa.Instruction) {
+			var m, key ssa.Value
+			switch x := in.(type) {
+			case *ssa.MapUpdate:
+				m, key = x.Map, x.Key
+			default:
+				return
+			}
+			mt, isM := m.Type().Underlying().(*types.Map)
+			if !isM {
+				return
+			}
+			if b, isB := mt.Key().Underlying().(*types.Basic); !isB || b.Kind() != types.String {
+				return
+			}
+			bare := derivesThroughCalls(key, func(y ssa.Value) bool { return isBare(y) || isModEntryName(y) })
+			if !bare {
+				return
+			}
+			rev := derivesThroughCalls(key, hasRev)
+			// name the table: a struct field, or a local of the function
+			name := ""
+			if owner, f, _ := loadedField(m); f != nil {
+				name = fieldKey(owner, f)
+			} else {
+				ln := localName(m)
+				if mk, isMk := m.(*ssa.MakeMap); isMk {
+					ln = c.varNameAt(fn, mk.Pos())
+				}
+				name = c.FnName(rootFn(fn)) + ": " + ln
+			}
+			t := tabs[name]
+			if t == nil {
+				t = &tab{name: name, pos: c.InstrPos(in)}
+				tabs[name] = t
+				order = append(order, name)
+			}
+			if rev {
+				t.rev = true
+			} else {
+				t.bare = true
+				if t.bareAt == "" {
+					t.bareAt = c.InstrPos(in)
+				}
+			}
+		})
+	}
+	sort.Strings(order)
+	var obs []Obligation
+	for _, n := range order {
+		t := tabs[n]
+		con := fmt.Sprintf("table %s keyed by module name distinguishes what it must", n)
+		switch {
+		case !t.bare:
+			obs = append(obs, ok(R, con, t.pos, "every key written carries the revision (FullName / revision date)"))
+		case bareKeyJustified[n] != "":
+			obs = append(obs, just(R, con, t.bareAt, bareKeyJustified[n]))
+		default:
+			obs = append(obs, bad(R, con, t.bareAt, "the key is built from a bare module name, which every loaded revision of the module shares: entries for different revisions overwrite or shadow each other (whichever is visited first wins), so the outcome differs from the one a single loaded revision gives"))
+		}
+	}
+	return obs
+}
+
+func localName(v ssa.Value) string {
+	switch x := v.(type) {
+	case *ssa.Parameter:
+		return x.Name()
+	case *ssa.MakeMap:
+		return "?"
+	case *ssa.UnOp:
+		if al, isA := x.X.(*ssa.Alloc); isA && al.Comment != "" {
+			return al.Comment
+		}
+	case *ssa.Phi:
+		if x.Comment != "" {
+			return x.Comment
+		}
+	}
+	return fmt.Sprintf("%T", v)
+}
+
+// varNameAt: the variable a value created at pos is assigned to (x := make(…) / x := T{…}).
+func (c *Ctx) varNameAt(fn *ssa.Function, pos token.Pos) string {
+	node := c.FuncAST(rootFn(fn))
+	name := "?"
+	if node == nil {
+		return name
+	}
+	ast.Inspect(node, func(n ast.Node) bool {
+		switch x := n.(type) {
+		case *ast.AssignStmt:
+			for i, r := range x.Rhs {
+				if i < len(x.Lhs) && r.Pos() <= pos && pos < r.End() {
+					if id, isId := x.Lhs[i].(*ast.Ident); isId {
+						name = id.Name
+					}
+				}
+			}
+		case *ast.ValueSpec:
+			for i, r := range x.Values {
+				if i < len(x.Names) && r.Pos() <= pos && pos < r.End() {
+					name = x.Names[i].Name
+				}
+			}
+		}
+		return true
+	})
+	return name
 }
